@@ -4,6 +4,7 @@ LEVEL = "other"
 CONTRACT_MODULES = ["contracts.specfuns", "contracts.lemmas_desc", "contracts.pyramid", "contracts.parallel", "contracts.walk", "contracts.reducer", "contracts.lemmas_embed", "contracts.generator", "contracts.image", "contracts.merge", "contracts.pyramidio", "contracts.study", "contracts.multitan", "contracts.multiwcs", "contracts.toastsample", "contracts.toastgeom", "contracts.toastgen"]
 FUNCTIONS = [
     "toasty.toast.toast_tile_get_coords",
+    "toasty.toast._level0_tile_get_coords",
     "toasty.toast.ToastSampler.visit_callback",
     "toasty.toast.sample_layer",
     "toasty.toast.sample_layer_filtered",
@@ -13,5 +14,5 @@ LEMMAS = []
 SLOW = ()
 TRUSTED_BASE = ["pyvc VC generator; z3/cvc5", "numpy contracts (pyvc/ndarray.py)", "compiled subsample (C05)",
                 "the user sampler is an arbitrary function of the coordinate arrays"]
-ASSUMPTIONS = ["that every accepted leaf is visited once with its own Tile is C03/C13; the level-0 grid and real files are bounded"]
+ASSUMPTIONS = ["that every accepted leaf is visited once with its own Tile is C03/C13; real files are bounded"]
 EXPLANATION = "visit_callback proved: sampler evaluated at this tile's grid, rows reversed iff the pyramid is bottom-up, clobber and update modes"
